@@ -875,14 +875,15 @@ def gather_wrap_dims(
                 cdims = rdims
                 rdims = np.setdiff1d(alldims, rdims)
             elif cdims_cyclic == "fc":
+                first = int(rdims[0])
                 cdims = np.array(
-                    [i for i in range(rdims[0] + 1, ndims)]
-                    + [i for i in range(rdims[0])]
+                    [i for i in range(first + 1, ndims)] + [i for i in range(first)]
                 )
             elif cdims_cyclic == "bc":
+                first = int(rdims[0])
                 cdims = np.array(
-                    [i for i in range(rdims[0] - 1, -1, -1)]
-                    + [i for i in range(ndims - 1, rdims[0], -1)]
+                    [i for i in range(first - 1, -1, -1)]
+                    + [i for i in range(ndims - 1, first, -1)]
                 )
             else:
                 assert False, (
